@@ -498,7 +498,25 @@ class Target(object):
     attr = "original"
 
 
+class BadRepr(object):
+    def __repr__(self):
+        raise RuntimeError("this object's repr raises")
+
+
+def mkval(vk):
+    """the value a value-holding object holds (DiagLife.tla ValueKinds); "-" = the kind holds no user value"""
+    if vk in ("-", "int"):
+        return 5
+    return {"none": lambda: None, "str": lambda: "nutria", "tuple0": lambda: (), "tuple1": lambda: (1,),
+            "tuple2": lambda: (1, "b"), "list": lambda: [1, (2, 3)], "dict": lambda: {"a": (1,), 2: ()},
+            "percent": lambda: "100%s %d %(x)s %% %", "badrepr": BadRepr}[vk]()
+
+
+VAL = [5]
+
+
 def run_life(case):
+    VAL[0] = mkval(case.get("val", "-"))
     kind = case["kind"]
     ops = [o["op"] for o in case["h"]]
     n = len(ops)
@@ -516,7 +534,7 @@ def run_life(case):
     else:
         DRIVERS[kind](ops, n, P)
     asynq.scheduler.reset()
-    diff = [j for j, (o, g) in enumerate(zip(case["h"], got)) if list(o["res"]) != g]
+    diff = [j for j, (o, g) in enumerate(zip(case["h"], got)) if list(o["res"]) != ["any"] and list(o["res"]) != g]
     return got, diff
 
 
@@ -526,7 +544,7 @@ def drive_future(ops, n, P):
     def prov():
         if flag["raise"]:
             raise VErr(7)
-        return 5
+        return VAL[0]
 
     f = None
     for j, op in enumerate(ops):
@@ -559,7 +577,7 @@ def drive_future(ops, n, P):
 
 
 def drive_const(ops, n, P):
-    P(0, ConstFuture(5))
+    P(0, ConstFuture(VAL[0]))
 
 
 def drive_errfut(ops, n, P):
@@ -567,7 +585,7 @@ def drive_errfut(ops, n, P):
 
 
 def drive_agvalue(ops, n, P):
-    P(0, asynq.generator.Value(5))
+    P(0, asynq.generator.Value(VAL[0]))
 
 
 def drive_task(ops, n, P):
@@ -590,7 +608,7 @@ def drive_task(ops, n, P):
         return 1
 
     @A()
-    def body():
+    def body(arg, kw=None):
         me = asynq.scheduler.get_active_task()
         if "start" in idx:
             P(idx["start"], me)
@@ -609,9 +627,9 @@ def drive_task(ops, n, P):
                 P(idx["resume"], me)
         if "raise" in idx:
             raise VErr(7)
-        return 5
+        return arg
 
-    t = body.asynq()
+    t = body.asynq(VAL[0], kw=VAL[0])
     box["t"] = t
     P(0, t)
     if n > 1:
@@ -683,7 +701,7 @@ def drive_item(ops, n, P):
         while j < n:
             op = ops[j]
             if op == "set":
-                it.set_value(5)
+                it.set_value(VAL[0])
                 P(j, it)
             elif op == "set_error":
                 it.set_error(VErr(3))
@@ -716,7 +734,7 @@ def drive_item(ops, n, P):
 
 
 def drive_ditem(ops, n, P):
-    it = DebugBatchItem(fresh_name(), result=7)
+    it = DebugBatchItem(fresh_name(), result=VAL[0])
     P(0, it)
     if n > 1:
         if ops[1] == "flush":
@@ -784,11 +802,11 @@ def drive_scoped(ops, n, P):
     ctx = None
     for j, op in enumerate(ops):
         if op == "create":
-            v = asynq.scoped_value.AsyncScopedValue(1)
+            v = asynq.scoped_value.AsyncScopedValue(VAL[0])
         elif op == "set":
-            v.set("two")
+            v.set(VAL[0])
         elif op == "override_enter":
-            ctx = v.override([3])
+            ctx = v.override(VAL[0])
             ctx.__enter__()
         elif op == "override_exit":
             ctx.__exit__(None, None, None)
@@ -799,9 +817,11 @@ def drive_scoped(ops, n, P):
 
 def drive_override(ops, n, P, prop=False):
     if prop:
-        ctx = asynq.scoped_value.async_override(Target(), "attr", 5)
+        tgt = Target()
+        tgt.attr = VAL[0]
+        ctx = asynq.scoped_value.async_override(tgt, "attr", VAL[0])
     else:
-        ctx = asynq.scoped_value.AsyncScopedValue(1).override(2)
+        ctx = asynq.scoped_value.AsyncScopedValue(VAL[0]).override(VAL[0])
     P(0, ctx)
     if n == 1:
         return
